@@ -446,6 +446,61 @@ func (r *c17Run) checkList(q *c17List, arg string) {
 			return
 		}
 	}
+	// 4. REVERSE key walks (limit 1 and 2) and a reverse offset walk (limit 1): the same multiset, each
+	// element exactly once; no order is demanded
+	if N >= 1 {
+		for _, l := range offLimits {
+			m.inc("page_walks")
+			var all []string
+			var key []byte
+			pages := 0
+			for {
+				pr := &query.PageRequest{Limit: l, Reverse: true, Key: key}
+				got, pg, err, pan := r.guard(q, arg, pr)
+				if pan {
+					return
+				}
+				if err != nil {
+					r.bad(q.name, "unexpected-error", fmt.Sprintf("%s(%q, %s reverse) page %d: error %v", q.name, arg, reqStr(pr), pages+1, err))
+					return
+				}
+				if uint64(len(got)) > l {
+					r.bad(q.name, "page-too-long", fmt.Sprintf("%s(%q, %s reverse): page of %d elements: %s", q.name, arg, reqStr(pr), len(got), brief(got)))
+					return
+				}
+				all = append(all, got...)
+				pages++
+				if pg == nil || len(pg.NextKey) == 0 {
+					break
+				}
+				if pages > N+3 {
+					r.bad(q.name, "paging-does-not-terminate", fmt.Sprintf("%s(%q) reverse limit %d: %d pages followed for %d matching rows", q.name, arg, l, pages, N))
+					return
+				}
+				key = pg.NextKey
+			}
+			if !r.compare(q, arg, fmt.Sprintf("reverse key walk limit=%d, %d pages", l, pages), all, want, "page-repeat", "page-drop") {
+				return
+			}
+		}
+		var walk []string
+		for o := 0; o < N; o++ {
+			pr := &query.PageRequest{Offset: uint64(o), Limit: 1, Reverse: true}
+			got, _, err, pan := r.guard(q, arg, pr)
+			if pan {
+				return
+			}
+			if err != nil {
+				r.bad(q.name, "unexpected-error", fmt.Sprintf("%s(%q, %s reverse): error %v", q.name, arg, reqStr(pr), err))
+				return
+			}
+			walk = append(walk, got...)
+		}
+		m.inc("page_walks")
+		if !r.compare(q, arg, "reverse offset walk limit=1", walk, want, "page-repeat", "page-drop") {
+			return
+		}
+	}
 	// 5. continuations WITHOUT a limit (the default page size applies): the first element with limit 1,
 	// then the rest by next_key and, separately, by offset 1
 	if N >= 2 {
